@@ -6,7 +6,9 @@ script (see coq/Channel/Multi.v `run`, harness/src/bin/chan.rs):
     bitrate = br (brk = 0) | usize::MAX (brk = 1), latency, jitter, pol 0 Drop | 1 Queue(None) | 2 Queue(Some lim) -- and its
     mode: 0 connected before the run with its own Channel::new(metrics), 1 with a clone of one shared template handle (metrics
     of the first mode-1 link), 2 connected at run time (inside the handler that first sends on it) with the live forward
-    channel of link 0 as template (metrics of link 0);
+    channel of link 0 as template (metrics of link 0), 3 | 4 connected before the run with a handle that has a history --
+    taken with gate.channel() from a prior simulation (same metrics) that was stopped by a limit while transmitting (4: with
+    messages queued behind) and then dropped completely; the handle is moved, not cloned, into connect;
     tx table: transmission time in ns per (link, message length) (the model's oracle for calculate_busy; computed
     here with the same IEEE-754 operations the code uses and re-reported by the implementation);
     oracle: the jitter samples of the seeded run as (channel, sample) in transmission order (model only; for jittered
@@ -88,7 +90,9 @@ RULE = ("scripts from a structured generator: bitrate in {0,1,8,1e3,1e9,2e12,usi
         "implementation), Drop | Queue(None) | Queue(Some 0|len|2len-1|3len|random); 40% one link one direction with 1..14 offers "
         "whose gaps are 0 (burst inside one handler), tx-1, tx, tx+1, the remaining busy time -1/0/+1, tx+latency or a large value; "
         "60% 1..3 links between two modules (each link with its own metrics in 55% of these; own Channel::new | clone of one shared "
-        "template handle | connected at run time from the live forward channel of link 0, the template's metrics win) with such offer sequences on 2..4 channels merged by time (both directions "
+        "template handle | connected at run time from the live forward channel of link 0, the template's metrics win | a handle "
+        "with a history: gate.channel() of a prior simulation stopped by a limit mid-transmission, optionally with a backlog, and "
+        "dropped, moved into connect -- alone or next to clones of a fresh handle) with such offer sequences on 2..4 channels merged by time (both directions "
         "of a link overlapping, the same direction of several template links overlapping, one handler sending into several "
         "channels, a run-time link first used while its template transmits); non-trivial = distinct script (sha1) hitting at "
         "least three targeted mechanisms; 6% probe scripts: ChannelMetrics::calculate_duration called directly under generators "
@@ -277,7 +281,8 @@ def pretty(script):
             "usize::MAX" if p["bitrate"] == UMAX else p["bitrate"], p["lat"], p["jit"], p["lens"],
             ["%#x" % ((h << 32) + l) for h, l in p["words"]])
     p = parse(script)
-    mode = {0: "own", 1: "shared-template", 2: "run-time-from-live-link0"}
+    mode = {0: "own", 1: "shared-template", 2: "run-time-from-live-link0", 3: "handle-busy-from-previous-simulation",
+            4: "handle-busy-with-backlog-from-previous-simulation"}
 
     def link(l):
         pol = {0: "Drop", 1: "Queue(None)"}.get(l["pol"], "Queue(Some(%d))" % l["lim"])
@@ -604,6 +609,14 @@ def mechanisms(script, out):
     links_used = {c // 2 for c in used}
     if sum(1 for i in links_used if p["modes"][i] == 1) >= 2: ms.add("several_links_from_one_template")
     if any(p["modes"][i] == 2 for i in links_used): ms.add("link_connected_at_run_time")
+    for i in links_used:
+        e = p["eff"][i]
+        if p["modes"][i] in (3, 4) and tx_ns(e["bitrate"], HDR) >= 1:
+            ms.add("template_handle_busy_from_previous_simulation")
+            if p["modes"][i] == 4 and (e["pol"] == 1 or (e["pol"] == 2 and e["lim"] >= HDR)):
+                ms.add("template_handle_busy_with_backlog_from_previous_simulation")
+            if any(p["modes"][j] == 1 for j in links_used): ms.add("history_template_next_to_clones_of_a_fresh_handle")
+            if any(c // 2 == i and c % 2 == 1 for c in used): ms.add("reverse_direction_of_history_template_link_used")
     try:
         msg, inv, f = _analyse(script, out)
     except Exception:
@@ -730,13 +743,18 @@ def gen_plain(rng):
     if r < 0.4:
         # one link, one direction
         offers = [(t, 0, l) for t, l in gen_chan(rng, br, sizes, lat, pol, rng.randint(1, 14), t0)]
-        return build(rng.randint(0, 10 ** 6), br, lat, jit, pol, lim, offers, modes=(rng.choice([0, 0, 1]),))
+        c0 = rng.choice([0, 0, 1])
+        return build(rng.randint(0, 10 ** 6), br, lat, jit, pol, lim, [(t, c0, l) for t, _, l in offers],
+                     modes=(rng.choice([0, 0, 1, 3, 4]),))
     nl = rng.choice([1, 2, 2, 3])
     kind = rng.random()
     if kind < 0.3: modes = [0] * nl
     elif kind < 0.6: modes = [1] * nl
     elif kind < 0.8: modes = [0] + [2] * (nl - 1)
-    else: modes = [rng.choice([0, 1])] + [rng.choice([0, 1, 2]) for _ in range(nl - 1)]
+    elif kind < 0.9: modes = [rng.choice([0, 1, 3, 4])] + [rng.choice([0, 1, 2, 3, 4]) for _ in range(nl - 1)]
+    else:
+        modes = [1] * nl                      # a template with a history next to clones of a fresh handle
+        modes[rng.randrange(nl)] = rng.choice([3, 4])
     # every link carries its own metrics in the script (what its instances get is decided by its template)
     links = [(br, lat, jit, pol, lim, modes[0])]
     differ = rng.random() < 0.55
